@@ -27,6 +27,7 @@ def lex_family(ctx, fam, maxlen, invariants=("Emit",), simulate=None, tag=""):
 def run(ctx):
     ctx.rule = ("PSLex.tla is the PLRM tokenizer as a function. bytes: TLC enumerates every byte string up to MaxLen over "
                 "an alphabet of representative bytes (all white space, all delimiters, escape, digit/letter classes); "
+                "strbody: every literal string whose body has up to 5 (quick) / 6 bytes over CR, LF, backslash, parentheses, digits, letters; "
                 "spell: object sequences x hand-written legal spellings x legal separators, with the specification's own "
                 "round trip Lex(Join(..)) = objects checked by TLC; dsc: DSC layouts. Each text is wrapped in { } and "
                 "executed; the procedure's tokens and Interpreter.DSC are compared. TV: the library's String.PS/Name.PS "
@@ -40,6 +41,10 @@ def run(ctx):
     # longer sequences: seeded random walks of the same generator
     lex_family(ctx, "spellsim", 7, invariants=("Emit", "SpecRoundTrip"), simulate=400 if q else 20000)
     lex_family(ctx, "dsc", 1)
+    # the literal-string scanner's state machine (end-of-line normalisation, continuation, escapes, nesting)
+    lex_family(ctx, "strbody", 5 if q else 7)
+    lex_family(ctx, "hexbody", 4 if q else 5)
+    lex_family(ctx, "a85body", 5 if q else 7)
     # negative control: flip the expectation of recorded legal vectors
     bad = []
     with open(vec) as f:
